@@ -205,6 +205,9 @@ def apply_rules(text, item, tmpl, fired):
     return text
 
 
+RUST_KEYWORDS = {"as", "break", "const", "continue", "crate", "else", "enum", "extern", "false", "fn", "for", "if", "impl", "in",
+                 "let", "loop", "match", "mod", "move", "mut", "pub", "ref", "return", "self", "Self", "static", "struct", "super",
+                 "trait", "true", "type", "unsafe", "use", "where", "while", "async", "await", "dyn"}
 CONTINUES = {"else", ".", "?", ";", ",", ")", "]", "}", "=", "as", "&&", "||", "+", "-", "*", "/", ":", ">", "<"}
 
 
@@ -230,6 +233,25 @@ def merge(t_toks, r_toks, flip=False):
         return t_toks[start:end]
 
     ops = sm.get_opcodes()
+    # Renamed identifiers: when /repo replaced identifier X by Y consistently (X no longer occurs in /repo's text, Y did
+    # not occur in the template's), the proof annotations follow the renaming.
+    ren, bad = {}, set()
+    for tag, i1, i2, j1, j2 in ops:
+        if tag == "replace" and i2 - i1 == j2 - j1:
+            for k in range(i2 - i1):
+                a, b = e0[i1 + k], r[j1 + k]
+                if a != b and re.match(r"^[A-Za-z_]\w*$", a) and re.match(r"^[A-Za-z_]\w*$", b):
+                    if ren.get(a, b) != b:
+                        bad.add(a)
+                    ren[a] = b
+    set_e0, set_r = set(e0), set(r)
+    ren = {a: b for a, b in ren.items() if a not in bad and a not in set_r and b not in set_e0 and a not in RUST_KEYWORDS and b not in RUST_KEYWORDS}
+    if ren:
+        for t in t_toks:
+            if t.ghost and t.text in ren:
+                t.text = ren[t.text]
+        for a, b in sorted(ren.items()):
+            drift.append({"op": "rename", "template": a, "repo": b, "repo_line": 0, "ghost_dropped": ""})
     # Pre-pass: a proof run sitting strictly inside a deleted / replaced span loses its place. If the statement it
     # precedes was MOVED (the same token sequence re-appears exactly once in inserted text), the run moves with it;
     # otherwise it is dropped and recorded (a failure of that item is then a lost anchor, not a refutation).
